@@ -11,7 +11,7 @@ Driver for C15.  Requests:
 
 `<fs>` = nine characters (docs docs.del sdocs _sdocs sdocs.del index _index index.del meta), `a`bsent `e`mpty `t`orn `h`oled
 `f`ull; in `life` answers only what a directory listing shows is printed: `a`bsent, `e`mpty, `f` = not empty.
-`<events>` = `;`-separated `new | fill | seal | sealpub | asuicide | ssuicide | suicide | start`, each optionally `@k` = the process dies after
+`<events>` = `;`-separated `new | fill | seal | sealpub | asuicide | ssuicide | suicide | start | startc`, each optionally `@k` = the process dies after
 `k` operations of the procedure (if it has at least `k`).  Sealing uses the extracted generator facts, no write fault and one sorted-docs write.
 -/
 open SV SV.Proto SV.FileSet SV.SealOps SV.Lifecycle
@@ -72,6 +72,12 @@ def lifeGo (c : Cfg) : List String → Nat → Role → FileSet → List String 
     let name := if parts.headD "" = "suicide" then (if r = .sealed then "ssuicide" else "asuicide") else parts.headD ""
     -- `sealpub` = `proxyFrac.Seal` up to and including the publication of the sealed fraction (everything but
     -- `Active.Release`): the window in which a waiting `proxyFrac.Suicide` already runs `Sealed.Suicide`
+    -- `startc` = a start-up whose context is cancelled during the replay (the number after `@` only tells the harness
+    -- when to cancel): `cancelledStartOps`, and the process ends
+    if name = "startc" then
+      let fs' := run (cancelledStartOps orphanFatal fs) fs
+      lifeGo c rest (i + 1) .crashed fs' (s!"crashed:{(fmtFs fs').map listingChar}" :: acc)
+    else
     if name = "sealpub" then
       if !(enabledB r fs (.sealing lifePlan [] [])) then s!"err not-enabled {i}" else
       let tr := sealTrace c srcFacts lifePlan [] []
